@@ -99,7 +99,35 @@ def _np_slice_len(n, start, stop):
     return len(range(*slice(start, stop, None).indices(n)))
 
 
-def valid_item(n, it):
+def _chunk(sizes, x):
+    """np.searchsorted(bounds, x, 'right') - 1: the file holding row x"""
+    b, k = 0, -1
+    for j, sz in enumerate([0] + list(sizes)):
+        b += sz
+        if b <= x:
+            k = j
+    return k
+
+
+def empty_item(sizes, it):
+    """the EMPTY row selections of the reading (PV.C02.Spec.empty_item): unit-step slices with bounds in
+    {None} u [-n, n] whose NumPy-normalised bounds satisfy 0 < e <= s < n with rows s and e - 1 in the same
+    file -- exactly the empty selections the reader WITHOUT deferred operations answers with a (0, c) block
+    (probed on every backend); stop = 0 is read as None by phylib, start = n / stop = -n / a file boundary in
+    between / an empty index list make np.vstack raise in the base reader itself"""
+    if it[0] != 'slice' or it[3] not in (None, 1):
+        return False
+    n = sum(sizes)
+    for v in (it[1], it[2]):
+        if v is not None and not (-n <= v <= n):
+            return False
+    s, e, _ = slice(it[1], it[2], None).indices(n)
+    return 0 < e <= s < n and _chunk(sizes, s) == _chunk(sizes, e - 1)
+
+
+def valid_item(n, it, sizes=None):
+    if sizes is not None and empty_item(sizes, it):
+        return True
     if it[0] == 'int':
         return -n <= it[1] < n
     if it[0] == 'slice':
@@ -134,7 +162,7 @@ def valid_case(case):
                 return False
             nread += 1
         else:
-            if not 0 <= cm[1] < nread or not valid_item(n, cm[2]):
+            if not 0 <= cm[1] < nread or not valid_item(n, cm[2], sizes):
                 return False
             if cfg['backend'] == 'cbin' and cm[2][0] == 'list':
                 return False
@@ -153,7 +181,12 @@ def _items(n, sizes):
     its = [['slice', max(0, b - 1), min(n, b + 2), None], ['int', -1], ['list', sorted({0, min(b, n - 1), n - 1})],
            ['slice', None, None, 1], ['int', min(b, n - 1)], ['slice', -3 if n >= 3 else -n, None, None],
            ['int', 0], ['slice', None, b, None], ['list', [n - 1]], ['slice', b, None, None] if b < n else ['int', -n]]
-    return [it for it in its if valid_item(n, it)]
+    # empty selections: [k:k] inside the last file, [a:b] with a > b (negative forms) inside the largest file
+    its.insert(2, ['slice', n - 1, n - 1, None])
+    big = max(range(len(sizes)), key=lambda j: sizes[j])
+    lo = sum(sizes[:big])
+    its.insert(6, ['slice', lo + sizes[big] - 1 - n, lo + 1 - n if lo + 1 < n else None, 1])
+    return [it for it in its if valid_item(n, it, sizes)]
 
 
 def fan(prefix, sizes, c, k, **cfg):
@@ -214,9 +247,27 @@ def _rand_op(rng, c):
     return [rng.choice(BINARY), _rand_scalar(rng)]
 
 
+def empty_items(sizes, steps=(None,)):
+    """every empty row selection of the reading on this layout"""
+    n = sum(sizes)
+    bounds = [None] + list(range(-n, n + 1))
+    return [['slice', a, b, st] for a in bounds for b in bounds for st in steps if empty_item(sizes, ['slice', a, b, st])]
+
+
+def _sizes_of(bounds):
+    return [y - x for x, y in zip(bounds, bounds[1:])]
+
+
 def _rand_item(rng, n, bounds, lists=True):
     near = sorted(set(x for b in bounds for x in (b - 1, b, b + 1) if 0 <= x <= n))
+    sizes = _sizes_of(bounds)
     for _ in range(100):
+        r = rng.random()
+        if r < 0.12:
+            es = empty_items(sizes, (None, None, 1))
+            if es:
+                return rng.choice(es)
+            continue
         r = rng.random()
         if r < 0.3:
             it = ['int', rng.randint(-n, n - 1)]
@@ -315,9 +366,11 @@ def rand_tree(rng, maxr=7):
 
 
 
-def all_items(n):
-    """every row index of the regime on n rows (C01's reading)"""
+def all_items(n, sizes=None):
+    """every row index of the regime on n rows (C01's reading + the empty slices of C02's reading)"""
     import itertools
+    if sizes is not None:
+        return all_items(n) + empty_items(list(sizes)) + empty_items(list(sizes), (1,))[::5]
     out = [['int', i] for i in range(-n, n)]
     bounds = [None] + list(range(-n, n + 1))
     for a in bounds:
@@ -355,7 +408,7 @@ def sweeps(rng, n, count):
     for k, prog in enumerate(progs[:count]):
         sizes, be, dt = cfgs[k % len(cfgs)]
         cmds = [['d', j, o] for j, o in enumerate(prog)]
-        its = all_items(n)
+        its = all_items(n, sizes)
         if be == 'cbin':
             its = [it for it in its if it[0] != 'list']
         cs = colsels(3)
@@ -407,6 +460,19 @@ CORPUS = [
     mk('prog', [4], 2, [['d', 0, HALF], ['d', 1, NEG], ['r', 2, ['list', [1, 3]], None]], backend='npy', dtype='float32', **{'as': 'array'}),
     mk('prog', [2, 3], 2, [['d', 0, ['rsub', ['f', (1.5).hex()]]], ['r', 1, S(1, 4, None), S(None, None, -1)]], backend='flat',
        dtype='uint8', off=0, offset=7),
+    # EMPTY row selections (seeded change C02-m3: `if out.shape[0] == 0: return out` before _apply_ops): the
+    # deferred operations must be applied to a (0, c) block too -- promoted dtype, selected columns
+    mk('prog', [6], 4, [['d', 0, ['truediv', ['i', 2]]], ['r', 1, S(5, 5, None), None], ['d', 0, ['cols', ['list', [0, 2]]]],
+                        ['r', 2, S(5, 5, None), None], ['r', 2, S(4, 2, None), None], ['r', 0, S(3, 3, None), None],
+                        ['d', 0, ['rpow', ['f', (2.0).hex()]]], ['r', 3, S(-1, -3, 1), None], ['r', 0, S(3, 3, None), ['list', [3, 0]]],
+                        ['d', 2, ['mul', ['f', (0.5).hex()]]], ['r', 4, S(1, 1, None), S(None, None, -1)], ['r', 4, S(1, 1, None), None]]),
+    mk('prog', [2, 3, 1], 3, [['d', 0, HALF], ['d', 1, C20], ['r', 2, S(1, 1, None), None], ['r', 2, S(4, 3, None), None],
+                              ['r', 2, S(-2, -3, None), ['list', [1]]], ['r', 1, S(3, 3, 1), None], ['r', 0, S(4, 4, None), None]],
+       backend='flat', offset=7),
+    mk('prog', [6], 3, [['d', 0, ['floordiv', ['f', (1.5).hex()]]], ['d', 1, REV], ['r', 2, S(3, 3, None), None], ['r', 2, S(5, 2, None), ['list', [1]]]],
+       backend='cbin', d=2),
+    mk('prog', [4], 2, [['d', 0, ['rtruediv', ['i', 7]]], ['d', 1, ['cols', S(1, None, None)]], ['r', 2, S(2, 1, None), None]],
+       backend='npy', dtype='float32', off=1),
     # two column selections in a row; empty column selection
     mk('prog', [5], 4, [['d', 0, ['cols', S(1, None, None)]], ['d', 1, C20], ['d', 2, ADD2], ['r', 3, R13, None],
                         ['d', 0, ['cols', S(3, 1, None)]], ['d', 5, ADD2], ['r', 6, R13, None]]),
@@ -573,11 +639,11 @@ def _block(out):
     import numpy as np
     if not isinstance(out, np.ndarray) or out.ndim != 2 or out.dtype.kind not in 'biuf' or _dtcode(out.dtype) == 99:
         return ['err', 'type=%s ndim=%s' % (type(out).__name__, getattr(out, 'ndim', None))]
-    return ['rows', _dtcode(out.dtype), _bits(out)]
+    return ['rows', _dtcode(out.dtype), int(out.shape[1]), _bits(out)]       # dtype, shape[1], rows (possibly none)
 
 
 def _same(a, b):
-    return a[0] == b[0] == 'rows' and a[1] == b[1] and a[2] == b[2]
+    return a[0] == b[0] == 'rows' and a[1:] == b[1:]
 
 
 def run_case(case):
@@ -763,7 +829,7 @@ def _out(o, it):
     if o[0] == 'reader':
         return 'RReader'
     if o[0] == 'rows':
-        return '(RRows %s %s)' % (q.z(o[1]), it.mat(o[2]))
+        return '(RRows %s %s %s)' % (q.z(o[1]), q.z(o[2]), it.mat(o[3]))
     return 'RErr'
 
 
@@ -828,9 +894,16 @@ def dist(case, obs):
             out.append('read.depth=%d' % min(depth[cm[1]], 4))
             out.append('read.item=' + (cm[2][0] if cm[2][0] != 'list' else cfg['as']))
             out.append('read.cols=' + ('none' if cm[3] is None else cm[3][0]))
+            if empty_item(i['sizes'], cm[2]):
+                out.append('read.empty_rows')
+                out.append('read.empty_rows.depth=%d' % min(depth[cm[1]], 4))
     for o, e in zip(outs, exps):
         if o[0] == 'rows' and e is not None and o[1] != s0[0]:
             out.append('read.dtype_changed')
+            if not o[3]:
+                out.append('read.empty_rows.dtype_changed')
+        if o[0] == 'rows' and e is not None and not o[3] and o[2] != i['c']:
+            out.append('read.empty_rows.cols_changed')
         if o[0] == 'reader':
             out.append('read.returns_reader')
     return out
